@@ -1785,9 +1785,17 @@ fn view_mut_act<P: PT, T: Val>(mut v: TrieViewMut<'_, P, T>, act: &Act, o: &mut 
             w_b(o, x);
         }
         Act::Ro => {
-            let x = coll((&v).view().iter(), cap);
-            key(o, "iter=");
-            w_pairs(o, x);
+            // the read-only twin borrowed from the mutable view (`AsView for &TrieViewMut`): all of
+            // its observers, not only the iterator; and `view_at` on it
+            let ro = (&v).view();
+            dump(&ro, o, cap);
+            let again = (&v).view_at(ro.prefix().clone());
+            let same = match again {
+                Some(a) => a.prefix() == ro.prefix() && a.iter().count() == ro.iter().count(),
+                None => ro.iter().next().is_none() && false,
+            };
+            key(o, "at=");
+            w_b(o, same || ro.iter().next().is_none());
         }
         Act::Set(val) => match v.set(T::new(*val)) {
             Ok(old) => {
